@@ -74,6 +74,27 @@ class C01(E1Prop):
                 for i in range(rng.randint(0, 2)):
                     seq.insert(rng.randrange(3, len(seq)), self.gen.next(w))
                 self.script = seq
+            elif w.use_queue and rng.random() < 0.25:
+                # story: a PR sits in the queue while an admin creates a
+                # development branch newer than all others; then the queue
+                # builds turn green
+                devs = [d for d in dests if d.startswith('development/')]
+                major = max(int(d.split('/')[1].split('.')[0])
+                            for d in devs)
+                seq = [{'op': 'open_pr', 'actor': 'alice',
+                        'src': 'bugfix/TEST-821', 'dst': rng.choice(
+                            dests[:max(1, len(dests) - 1)]), 'kind': 'new'},
+                       {'op': 'eval', 'p': 0},
+                       {'op': 'ci_green_all', 'which': ['src', 'w']},
+                       {'op': 'eval', 'p': 0},
+                       {'op': 'api', 'job': 'create_branch', 'kwargs': {
+                           'branch': 'development/%d.%d' % (
+                               major + 1, rng.choice([0, 2]))}},
+                       {'op': 'ci_green_all'}, {'op': 'deliver_all'},
+                       {'op': 'ci_green_all'}, {'op': 'deliver_all'}]
+                for o in seq:
+                    o['dt'] = rng.choice([1, 5, 30])
+                self.script = seq
             elif len(dests) >= 2 and rng.random() < 0.3:
                 # story (backport): a fix cut from an old commit of an early
                 # destination lands on a later destination first; the early
